@@ -98,7 +98,9 @@ def fitted_curve(rng, path, enum, variant=0):
            dict(model_key="hertz_para", optimal_fit_edelta=True,
                 optimal_fit_num_samples=8, range_x=[-5e-6, 5e-6]),
            # unsuccessful fit (no points in range): all-NaN fit column
-           dict(model_key="hertz_para", range_x=[1e-3, 1.001e-3])]
+           dict(model_key="hertz_para", range_x=[1e-3, 1.001e-3]),
+           # numerically equivalent to variant 0 (other optimiser tolerance)
+           dict(model_key="hertz_para", method_kws={"ftol": 1e-10})]
     kw = kws[variant % len(kws)]
     try:
         idnt.fit_model(**copy.deepcopy(kw))
@@ -248,10 +250,12 @@ def sequence(rec, rng, cid, scratch):
             variant = stored[key][0]
         elif key in stored:
             op = "different-fit"
-            variant = stored[key][0] + int(rng.integers(1, 7))
+            variant = stored[key][0] + int(rng.integers(1, 8))
+            if stored[key][0] % 8 == 0 and rng.random() < .4:
+                variant = 7       # numerically equivalent refit
         else:
             op = "new"
-            variant = int(rng.integers(7))
+            variant = int(rng.integers(8))
         idnt, kw, pipe = fitted_curve(rng, path, enum, variant)
         case = {"id": cid, "kind": "sequence",
                 "history": hist + [[op, path.name, enum, kw, pipe]]}
@@ -260,7 +264,7 @@ def sequence(rec, rng, cid, scratch):
         after = dump(h5path)
         hist.append([op, path.name, enum, kw, pipe, res])
         rec.evaluated(dg=(path.name, enum, kw, pipe, op))
-        gname = None
+        near_identical = False
         if op == "different-fit":
             rec.event("saves of a different fit")
             fa_ = np.asarray(idnt["fit"])
@@ -272,13 +276,13 @@ def sequence(rec, rng, cid, scratch):
                 # refusal is demanded only for clearly different fits (the
                 # library compares with a relative tolerance of 1e-5)
                 rec.event("'different' settings gave a (nearly) identical "
-                          "fit (not judged)")
-                if res == "ok":
-                    # accepted as "the same curve again": the container
-                    # keeps the stored fit, only the user fields change
-                    stored[key] = (stored[key][0], user, stored[key][2])
-                continue
-            if True:
+                          "fit")
+                if res != "ok":
+                    continue
+                # accepted as "the same curve again": the container keeps
+                # the stored fit, ONLY the user fields may change
+                near_identical = True
+            else:
                 rec.check(res == "EXC:ValueError",
                           "different-fit/not-refused",
                           "storing a different fit (%s after variant %d) for "
@@ -321,8 +325,13 @@ def sequence(rec, rng, cid, scratch):
         else:
             rec.check(not changed, "growth/existing-entries-altered",
                       "saving a new curve altered %s" % changed[:4], case)
-        stored[key] = (variant, user, idnt)
-        judge_roundtrip(rec, h5path, idnt, user, case)
+        if near_identical:
+            # the entry still holds the first fit and its settings
+            stored[key] = (stored[key][0], user, stored[key][2])
+            judge_roundtrip(rec, h5path, stored[key][2], user, case)
+        else:
+            stored[key] = (variant, user, idnt)
+            judge_roundtrip(rec, h5path, idnt, user, case)
     # finally: every stored entry is still there with its last user fields
     from nanite.rate.io import load_hdf5, RateManager
     meta = load_hdf5(h5path, meta_only=True) if h5path.exists() else []
